@@ -17,8 +17,11 @@
 package staking
 
 import (
+	"bytes"
+	"errors"
 	"io"
 	"math/big"
+	"sort"
 	"sync/atomic"
 
 	"github.com/youchainhq/go-youchain/common"
@@ -95,7 +98,15 @@ func (e *EvidenceDoubleSign) DecodeRLP(c *rlp.Stream) error {
 	e.Round = data.Round
 	e.RoundIndex = data.RoundIndex
 	e.Signs = make(map[common.Hash][]byte)
-	for _, item := range data.Signs {
+	for i, item := range data.Signs {
+		// one value, one encoding: full-length hashes in strictly ascending order (what EncodeRLP writes).
+		// Shorter/longer hashes used to be padded/cropped and duplicates collapsed in the map.
+		if len(item.Hash) != common.HashLength {
+			return errors.New("double sign evidence: hash is not 32 bytes")
+		}
+		if i > 0 && bytes.Compare(data.Signs[i-1].Hash, item.Hash) >= 0 {
+			return errors.New("double sign evidence: hashes are not strictly ascending")
+		}
 		e.Signs[common.BytesToHash(item.Hash)] = item.Sign
 	}
 	return nil
@@ -113,7 +124,14 @@ func (e EvidenceDoubleSign) EncodeRLP(w io.Writer) error {
 	}
 	data.Round = new(big.Int).Set(e.Round)
 	data.RoundIndex = e.RoundIndex
-	for h, s := range e.Signs {
+	// map iteration order is random: sort, so that equal evidences have one encoding
+	hashes := make([]common.Hash, 0, len(e.Signs))
+	for h := range e.Signs {
+		hashes = append(hashes, h)
+	}
+	sort.Slice(hashes, func(i, j int) bool { return bytes.Compare(hashes[i][:], hashes[j][:]) < 0 })
+	for _, h := range hashes {
+		s := e.Signs[h]
 		data.Signs = append(data.Signs, struct {
 			Hash []byte
 			Sign []byte
